@@ -25,7 +25,7 @@ ASSUMPTIONS = [
     "children or authentication/recordDelimiter children that differ in what they carry",
     "'any tree built from known element names' excludes unknown names and non-text content, not invalid structure",
 ]
-REQUIRED = ["re_evaluated_after_in_place_edit", "empty_descriptions_planted", "tree_calls", "node_calls", "valid_trees_compared", "warnings_compared", "prior_entries_preserved_checks", "title_at_threshold",
+REQUIRED = ["vocabulary_sweep_trees", "re_evaluated_after_in_place_edit", "empty_descriptions_planted", "tree_calls", "node_calls", "valid_trees_compared", "warnings_compared", "prior_entries_preserved_checks", "title_at_threshold",
             "abstract_at_threshold", "keywords_at_threshold"]
 EXHAUSTIVE = {"quick": False, "thorough": False}
 
@@ -269,9 +269,26 @@ def judge(ctx, root, origin, compare):
         ctx.distinct(snapshot.value(root))
 
 
+def vocabulary_sweep(ctx, gen):
+    """Every element the library knows, once as the root of a small valid tree (and once more below a dataset where the rule of dataset
+    allows it): what evaluation says about an element must not depend on a name the generator happens to favour."""
+    from vlib.emlkit import mrule
+    allowed_in_dataset = set(emlkit.spec_of("datasetRule").names) if "datasetRule" in emlkit.rules_table() else set()
+    for e in mrule.node_names():
+        if not gen.buildable(e):
+            continue
+        for size in (0, 12):
+            t = gen.minimal_tree(e) if size == 0 else gen.valid_tree(e, ctx.rng, size)
+            ctx.case(judge, ctx, t, f"vocabulary sweep: <{e}>", True)
+            ctx.count("vocabulary_sweep_trees")
+            emlkit.discard(t)
+
+
 def run(ctx, params):
     rng = ctx.rng
     gen = treegen.Gen()
+    if params.get("salt", 0) == 0:
+        vocabulary_sweep(ctx, gen)
     for i in range(params["valid"]):
         root = gen.valid_tree(rng.choice(["eml", "eml", "dataset", "dataset", "dataTable", "project", "methods"]), rng, rng.choice([20, 60, 150]))
         if rng.random() < 0.3:
